@@ -158,8 +158,12 @@ def gen_gls_case(rng, nmin=3, nmax=9):
             paps[taxa.index(rng.choice(sorted(inside)))] = 1
     g, l = rng.choice(WEIGHTS)
     gpl = rng.choice([0, 1, 1, 2, 3, n, n, n + 3])
+    md = rng.choice([0, -1])
     return {"kind": "get_gls", "tree": t, "taxa": taxa, "paps": paps, "gpl": gpl, "g": g, "l": l,
-            "push": rng.random() < 0.5, "md": rng.choice([0, -1])}
+            "push": rng.random() < 0.5, "md": md,
+            # the same pattern object is handed to get_gls a second time
+            "md2": (-1 - md) if rng.random() < 0.7 else md,
+            "arr": rng.choice(["list", "list", "numpy", "numpy", "tuple"])}
 
 
 def exhaustive_gls_cases(nleaves, configs, pattern_values=(1, 0, -1)):
@@ -181,22 +185,46 @@ def config_grid(weights, gpls, pushes=(True, False), mds=(0, -1)):
     return [(g, l, gpl, push, md) for (g, l) in weights for gpl in gpls for push in pushes for md in mds]
 
 
+class ArgumentMutated(AssertionError):
+    pass
+
+
 def run_get_gls(case):
+    """Two calls on the SAME pattern object (list, tuple or numpy array) with missing_data = md, md2.
+    The caller's pattern must be unchanged after each call; both results go to the model comparison,
+    which uses the original pattern."""
     from lingpy.compare.phylogeny import get_gls
     tree = load(case["tree"])
     taxa = ["n%d" % i for i in case["taxa"]]
-    paps = list(case["paps"])
-    out = get_gls(paps, taxa, tree, gpl=case["gpl"], weights=(case["g"], case["l"]),
-                  push_gains=case["push"], missing_data=case["md"])
-    if paps != list(case["paps"]):
-        raise AssertionError("get_gls modified its paps argument")
-    return {"tree": read_back(tree), "out": [(nid(a), int(b)) for a, b in out]}
+    orig = list(case["paps"])
+    kind = case.get("arr", "list")
+    if kind == "numpy":
+        import numpy as np
+        paps = np.array(orig)
+    elif kind == "tuple":
+        paps = tuple(orig)
+    else:
+        paps = list(orig)
+    md2 = case.get("md2", case["md"])
+    outs = []
+    for k, md in enumerate((case["md"], md2)):
+        if k == 1 and md2 == case["md"] and kind == "list":
+            outs.append(outs[0])                 # nothing new to observe: skip the second call
+            break
+        out = get_gls(paps, taxa, tree, gpl=case["gpl"], weights=(case["g"], case["l"]),
+                      push_gains=case["push"], missing_data=md)
+        if [int(x) for x in paps] != orig:
+            raise ArgumentMutated("get_gls modified the caller's pattern (%s): %r -> %r (call %d, missing_data=%d)"
+                                  % (kind, orig, [int(x) for x in paps], k + 1, md))
+        outs.append([(nid(a), int(b)) for a, b in out])
+    return {"tree": read_back(tree), "out": outs[0], "out2": outs[1]}
 
 
 def render_get_gls(case, res):
     return L.record("gls_case", [
         tree_lit(res["tree"]), pat_lit(case["taxa"], case["paps"]), L.z(case["gpl"]), L.z(case["g"]),
-        L.z(case["l"]), L.b(case["push"]), L.z(case["md"]), story_lit(res["out"])])
+        L.z(case["l"]), L.b(case["push"]), L.z(case["md"]), story_lit(res["out"]),
+        L.z(case.get("md2", case["md"])), story_lit(res["out2"])])
 
 
 # ----------------------------------------------------------------------------
@@ -392,39 +420,65 @@ def run_phybo(case):
 
             tree_read = rb(phy.tree)
             taxa = [name_id(x) for x in phy.taxa]
-            for mode in ("weighted", "restriction", "topdown"):
-                cfg = case[mode]
+            observed = {cog: list(phy.paps[cog]) for cog in phy.cogs}     # as built from the wordlist
+            calls = case.get("calls") or [(m, case[m]) for m in ("weighted", "restriction", "topdown")]
+            for mode, cfg in calls:
                 before = {cog: list(phy.paps[cog]) for cog in phy.cogs}
                 if mode == "weighted":
                     phy.get_GLS(mode="weighted", ratio=(cfg["g"], cfg["l"]), gpl=cfg["gpl"], push_gains=cfg["push"],
-                                missing_data=cfg["md"])
+                                missing_data=cfg["md"], force=True)
                     glm = "w-%d-%d" % (cfg["g"], cfg["l"])
                 elif mode == "restriction":
                     try:
                         phy.get_GLS(mode="restriction", restriction=cfg["r"], gpl=cfg["gpl"],
-                                    push_gains=cfg["push"], missing_data=cfg["md"])
+                                    push_gains=cfg["push"], missing_data=cfg["md"], force=True)
                     except (KeyError, ValueError, IndexError):
                         continue          # restriction too tight for some pattern: documented guard
                     glm = "r-%d" % cfg["r"]
                 else:
-                    phy.get_GLS(mode="topdown", restriction=cfg["r"], missing_data=cfg["md"])
+                    phy.get_GLS(mode="topdown", restriction=cfg["r"], missing_data=cfg["md"], force=True)
                     glm = "t-%d" % cfg["r"]
                 for cog in phy.cogs:
                     gls, noo = phy.gls[glm][cog]
                     if noo != sum(e for _, e in gls):
                         raise AssertionError("number of origins is not the number of gains")
-                    items.append({"mode": mode, "cog": str(cog), "paps": before[cog],
-                                  "out": [(name_id(a), int(b)) for a, b in gls]})
+                    items.append({"mode": mode, "cfg": dict(cfg), "cog": str(cog), "paps": before[cog],
+                                  "obs": observed[cog], "out": [(name_id(a), int(b)) for a, b in gls]})
         return {"tree": tree_read, "taxa": taxa, "items": items, "out": [x for it in items for x in it["out"]]}
     finally:
         logging.disable(logging.NOTSET)
         shutil.rmtree(d, ignore_errors=True)
 
 
+def gen_phybo_history_case(rng):
+    """One PhyBo object, a sequence of get_GLS calls that re-use the same model names (force=True) with
+    different missing_data / gpl / push_gains: every call's results must reproduce the observed patterns
+    under THAT call's missing-data convention, and equal the model on the patterns the object held."""
+    c = gen_phybo_case(rng)
+    c["singletons"] = rng.random() < 0.5
+    calls = []
+    for _ in range(rng.randint(3, 5)):
+        mode = rng.choice(["weighted", "weighted", "restriction", "topdown"])
+        cfg = dict(c[mode])
+        cfg["md"] = rng.choice([0, -1])
+        if "gpl" in cfg:
+            cfg["gpl"] = rng.choice([1, 2, 3])
+            cfg["push"] = rng.random() < 0.5
+        calls.append((mode, cfg))
+    # make sure some model name is used with both conventions, missing data treated as such first
+    mode = rng.choice(["weighted", "topdown", "restriction"])
+    a, b = dict(c[mode]), dict(c[mode])
+    a["md"], b["md"] = -1, 0
+    pos = rng.randrange(len(calls) + 1)
+    calls[pos:pos] = [(mode, a), (mode, b)]
+    c["calls"] = calls
+    return c
+
+
 def render_phybo(case, res):
     items = []
     for it in res["items"]:
-        cfg = case[it["mode"]]
+        cfg = it["cfg"]
         if it["mode"] == "weighted":
             m = "(GWeighted %s %s)" % (L.z(cfg["g"]), L.z(cfg["l"]))
         elif it["mode"] == "restriction":
@@ -433,7 +487,7 @@ def render_phybo(case, res):
             m = "(GTopDown %s)" % L.z(cfg["r"])
         items.append(L.record("phybo_item", [
             m, L.z(cfg.get("gpl", 1)), L.b(cfg.get("push", True)), L.z(cfg["md"]), L.zlist(it["paps"]),
-            L.b(it["mode"] != "topdown"), story_lit(it["out"])]))
+            L.zlist(it["obs"]), L.b(it["mode"] != "topdown"), story_lit(it["out"])]))
     return L.record("phybo_case", [tree_lit(res["tree"]), L.zlist(res["taxa"]), L.lst(items)])
 
 
@@ -494,6 +548,10 @@ def from_json(c):
     case["tree"] = from_json_tree(c["tree"])
     case.pop("impl", None)
     case.pop("newick", None)
+    if case.get("calls"):
+        case["calls"] = [(m, cfg) for m, cfg in case["calls"]]
+    if case.get("rows"):
+        case["rows"] = [tuple(r) for r in case["rows"]]
     return case
 
 
@@ -556,7 +614,7 @@ def _shrink(case):
                     c = dict(case)
                     c["paps"] = q
                     yield c
-    for key, val in (("g", 1), ("l", 1), ("gpl", 1), ("push", True), ("md", 0)):
+    for key, val in (("g", 1), ("l", 1), ("gpl", 1), ("push", True), ("md", 0), ("arr", "list")):
         if key in case and case[key] != val:
             c = dict(case)
             c[key] = val
